@@ -13,7 +13,9 @@ class Unit:
                  harness=None, setup='', args=None, post='', backend='cadical', timeout=600, mem_gb=12,
                  rec=False, cbmc_flags=(), props=(), note='', extra_c='', expect_fail=(), opaque=None,
                  split=False, tier='quick', unwindset=(), defines=(), extern_records=(), bounded=None,
-                 stubs=(), variants=None, pre_c='', object_bits=None, checks=None, bind='', ghost=(), bind_assigns=(), gen_stubs=None):
+                 stubs=(), variants=None, pre_c='', object_bits=None, checks=None, bind='', ghost=(), bind_assigns=(), gen_stubs=None, lifted_loops=None, auto_inline=()):
+        self.auto_inline = list(auto_inline)   # regexes: callees lowered and inlined automatically (constructors, reset, trivial helpers)
+        self.lifted_loops = lifted_loops   # callable(ast, L, tf, lifted) -> {cname: {loop: text}} for lambda-lifted helpers
         self.gen_stubs = gen_stubs or []   # [(regex on callee C name, body template with $PROTO args)] executable assumed contracts
         self.ghost = list(ghost)    # [(ctype, name, entry expression over $this/$k)] -> per-function ghost entry bindings '@name'
         self.bind_assigns = list(bind_assigns)
@@ -263,6 +265,23 @@ def build_c(ast, unit, registry):
             continue
         have.add(f.cname)
         inl_fns.append((f, '', {}))
+    # transitive automatic inlining of constructors / reset helpers
+    work = [tf] + [f for f, _, _ in inl_fns]
+    while work:
+        cur_f = work.pop()
+        for cn in list(cur_f.calls):
+            if cn in have or not any(re.match(rx + '$', cn) for rx in unit.auto_inline):
+                continue
+            if cn in cur_f.calldecls:
+                d = ast.decl2def.get(cur_f.calldecls[cn]['id'], cur_f.calldecls[cn])
+                nf = L.lower_function(d)
+            elif cn.endswith('__default') and cn[:-9] in ast.records:
+                nf = L.gen_default(cn[:-9])
+            else:
+                continue
+            have.add(nf.cname)
+            inl_fns.append((nf, '', {}))
+            work.append(nf)
     protos = []
     replaced = []
     binds = {}
@@ -290,7 +309,11 @@ def build_c(ast, unit, registry):
         tcontract += '\n__CPROVER_assigns(%s)\n' % binds_list
     uloops = unit.loops(ast, L, tf) if callable(unit.loops) else unit.loops
     tloops = {k: subst(expand_ghost(v, unit, tf.cname), tf).replace('@BINDS', binds_list) for k, v in uloops.items()}
-    fns = [(tf, tcontract, tloops)] + inl_fns
+    lifted = list(L.lifted)
+    ll = unit.lifted_loops(ast, L, tf, lifted) if unit.lifted_loops else {}
+    for lf in lifted:
+        have.add(lf.cname)
+    fns = [(tf, tcontract, tloops)] + inl_fns + [(lf, '', ll.get(lf.cname, {})) for lf in lifted]
     for ref in unit.stubs:
         if isinstance(ref, str):
             have.add(ref)      # C name of a library/virtual callee defined by the prelude
@@ -298,7 +321,7 @@ def build_c(ast, unit, registry):
             have.add(L.cname(find_one(ast, ref)))
     # callees whose assumed contract is an executable stub generated from the callee's declaration
     gen = []
-    allf = [tf] + [f for f, _, _ in inl_fns]
+    allf = [tf] + [f for f, _, _ in inl_fns] + list(L.lifted)
     for f in allf:
         for cn, d in f.calldecls.items():
             if cn in have:
@@ -490,7 +513,7 @@ def compile_unit(ast, unit, registry, wd, defines=()):
     icmd += ['--enforce-contract-rec' if unit.rec else '--enforce-contract', tname]
     for r in facts['replaced']:
         icmd += ['--replace-call-with-contract', r]
-    if unit.loops:
+    if unit.loops or unit.lifted_loops:
         icmd += ['--apply-loop-contracts']
     icmd += [a, b]
     rc, so, se, dt = run(icmd, 300)
